@@ -176,10 +176,15 @@ def run_property(pid, tier, module, seed=0):
     proved = [o for o in counted if o["status"] == "proved"]
     replays = []
     need_standin = bool(undecided)
+    MAX_REPLAYS = int(os.environ.get("GVC_MAX_REPLAYS", "3"))
+    skipped = 0
     for o in refuted:
         kf = match_known(pid, o, known)
         if kf:
             known_hits.append((kf, o))
+            continue
+        if len(violations) >= MAX_REPLAYS:
+            skipped += 1          # listed in the evidence / report; native replay budget used up
             continue
         nat = None
         if o.get("replay") is not None:
@@ -194,8 +199,12 @@ def run_property(pid, tier, module, seed=0):
         violations.append((o, path, confirmed))
         lines.append(f"VIOLATION property={pid} replay={path}{suffix}")
     standin = None
-    if need_standin or vac_problems or errors:
-        standin = native(pid, "standin", {"tier": tier, "seed": seed})
+    always = getattr(module, "NATIVE_ALWAYS", {}).get(tier)
+    if need_standin or vac_problems or errors or always:
+        payload = {"tier": tier, "seed": seed}
+        if always and not (need_standin or vac_problems or errors):
+            payload.update(always)
+        standin = native(pid, "standin", payload)
         for fail in (standin.get("failures") or []):
             # a failing input found natively after the proof attempt went undecided
             fake = Ob(f"{pid}/standin/{fail.get('name', '?')}", "bounded", "refuted", fail.get("detail", ""),
@@ -267,6 +276,8 @@ def run_property(pid, tier, module, seed=0):
           f"canaries={cov['canaries_refuted']}/{len(canaries)} wall={ev['wall_s']}s solver={cov['solver_seconds']}s")
     for o in refuted + undecided + errors:
         print(f"  {o['status'].upper():9s} {o['name']}: {str(o['detail'])[:300]}")
+    if skipped:
+        print(f"  (+{skipped} further refuted obligations not replayed natively: replay budget {MAX_REPLAYS} per run)")
     for v in vac_problems:
         print("  VACUITY:", v)
     for l in lines:
